@@ -66,6 +66,8 @@ pub struct RunCfg {
     pub guards: BTreeSet<String>,
     pub publish_failure_pct: u64,
     pub max_msgs_per_burst: u64,
+    #[serde(default)]
+    pub big_dt: bool,
 }
 
 #[derive(Debug, Clone, Serialize, Deserialize)]
@@ -85,6 +87,12 @@ pub struct Profile {
     pub guards: BTreeSet<String>,
     pub small_config: bool,
     pub hostile: u64,
+    /// snapshot TTL range in seconds (None = library default)
+    pub snapshot_ttl: Option<(u64, u64)>,
+    /// retention range (None = per small_config / default)
+    pub retention: Option<(usize, usize)>,
+    /// occasionally advance the clock by tens of seconds
+    pub big_dt: bool,
 }
 
 impl Default for Profile {
@@ -105,6 +113,9 @@ impl Default for Profile {
             guards: BTreeSet::new(),
             small_config: false,
             hostile: 0,
+            snapshot_ttl: None,
+            retention: None,
+            big_dt: false,
         }
     }
 }
@@ -144,6 +155,12 @@ pub fn draw_cfg(seed: u64, p: &Profile) -> RunCfg {
             c.out_of_order_tolerance = [100, 100, 5, 10, 3][r.below(5) as usize];
             c.maximum_forward_distance = [1000, 1000, 20, 50][r.below(4) as usize];
         }
+        if let Some((lo, hi)) = p.snapshot_ttl {
+            c.snapshot_ttl_seconds = r.range(lo, hi);
+        }
+        if let Some((lo, hi)) = p.retention {
+            c.epoch_snapshot_retention = r.range(lo as u64, hi as u64) as usize;
+        }
         nodes.push(c);
     }
     let initial_members: Vec<usize> = (0..n_members).collect();
@@ -179,6 +196,10 @@ pub fn draw_cfg(seed: u64, p: &Profile) -> RunCfg {
     if p.guards.contains("no_rotation") {
         weights.rotate = 0;
     }
+    if p.guards.contains("single_committer") {
+        weights.leave = 0;
+        weights.fork = 0;
+    }
     if p.guards.contains("no_leave") {
         weights.leave = 0;
     }
@@ -198,6 +219,7 @@ pub fn draw_cfg(seed: u64, p: &Profile) -> RunCfg {
         guards: p.guards.clone(),
         publish_failure_pct: if p.guards.contains("no_publish_failure") { 0 } else { r.range(0, 4) },
         max_msgs_per_burst: if p.msg_heavy { r.range(1, 6) } else { 2 },
+        big_dt: p.big_dt,
     }
 }
 
@@ -429,7 +451,11 @@ impl Gen {
             let node = self.sched.below(n_nodes as u64) as usize;
             let n_groups = w.groups.len().max(1);
             let g = self.sched.below(n_groups as u64) as usize;
-            let dt = [0u32, 0, 0, 1, 1, 2, 5][self.sched.below(7) as usize];
+            let mut dt = [0u32, 0, 0, 1, 1, 2, 5][self.sched.below(7) as usize];
+            if self.cfg.big_dt && self.sched.chance(1, 8) {
+                dt = self.sched.range(10, 90) as u32;
+                w.fault("clock_jump");
+            }
             let step = match k {
                 0 => {
                     if !w.is_active_member(node, g) {
@@ -441,6 +467,9 @@ impl Gen {
                 }
                 1 => {
                     if !w.is_active_member(node, g) || w.has_pending_commit(node, g) {
+                        continue;
+                    }
+                    if self.cfg.guards.contains("single_committer") && node != 0 {
                         continue;
                     }
                     let Some(op) = self.commit_op(w, node, g) else { continue };
